@@ -171,6 +171,21 @@ type ManyOptPairs struct {
 	A, B, C, D, E *int64
 }
 
+// Clash holds two DIFFERENT Go types that share the short name "Item". An inferred schema names
+// types by their short name, so it cannot describe both: inference may refuse (panic), it must
+// not bind one of them to the other's description.
+type Clash struct {
+	A pk1.Item
+	B pk2.Item
+}
+
+// BigU holds unsigned values above the int64 range, alone and in (nested) slices.
+type BigU struct {
+	U uint64
+	L []uint64
+	N [][]uint64
+}
+
 const schemaSrc = `
 type Simple struct { S String  I Int  B Bool  F Float  Y Bytes }
 type Widths struct { I8 Int I16 Int I32 Int I64 Int U8 Int U16 Int U32 Int U64 Int I Int U Int }
@@ -209,6 +224,12 @@ type MapS {String:Simple}
 type HasMapS struct { M MapS }
 type Swapped struct { Src String (rename "Dst")  Dst String (rename "Src") }
 type Chain struct { A String (rename "B")  B String (rename "C")  C String (rename "A") }
+type Item1 struct { N Int }
+type Item2 struct { N Int  M String }
+type Clash struct { A Item1  B Item2 }
+type UList [Int]
+type UListList [UList]
+type BigU struct { U Int  L UList  N UListList }
 type Foo1 struct { A String  N Int }
 type Foo2 struct { X Bool  L [Int] }
 `
@@ -225,12 +246,14 @@ var someCid = func() cid.Cid {
 }()
 
 type vtype struct {
-	name      string
-	schema    string // type name in the explicit schema
-	inferable bool
-	ptr       func() interface{}           // nil pointer of the Go type, for Prototype
-	vals      []func() interface{}         // fresh pointers to values
-	expect    func(v interface{}) *model.V // hand-written type-level AV (nil: not sampled)
+	cborOnly          bool // values outside dag-json's domain in this library (integers above the int64 range)
+	mayRefuseInferred bool // an inferred schema cannot describe this type: a panic is a legal answer, wrong data is not
+	name              string
+	schema            string // type name in the explicit schema
+	inferable         bool
+	ptr               func() interface{}           // nil pointer of the Go type, for Prototype
+	vals              []func() interface{}         // fresh pointers to values
+	expect            func(v interface{}) *model.V // hand-written type-level AV (nil: not sampled)
 }
 
 var vocab = []vtype{
@@ -328,6 +351,11 @@ var vocab = []vtype{
 			func() interface{} {
 				return &HasPrefix{U: UPrefix{B: sp("a:tricky")}, V: UPrefix{A: sp("b:")}, Lvl: "Low"}
 			},
+			// payloads that begin with characters of their own prefix
+			func() interface{} {
+				return &HasPrefix{U: UPrefix{A: sp("aardvark:a")}, V: UPrefix{B: sp("b:b:bb")}, Lvl: "High"}
+			},
+			func() interface{} { return &HasPrefix{U: UPrefix{A: sp(":a:")}, V: UPrefix{B: sp("::")}, Lvl: "Low"} },
 		}},
 	{name: "HasMapU", schema: "HasMapU", ptr: func() interface{} { return (*HasMapU)(nil) },
 		vals: []func() interface{}{
@@ -346,6 +374,15 @@ var vocab = []vtype{
 		vals: []func() interface{}{func() interface{} { return &Swapped{Src: "from", Dst: "to"} }}},
 	{name: "Chain", schema: "Chain", ptr: func() interface{} { return (*Chain)(nil) },
 		vals: []func() interface{}{func() interface{} { return &Chain{A: "1", B: "2", C: "3"} }}},
+	{name: "Clash", schema: "Clash", inferable: true, mayRefuseInferred: true, ptr: func() interface{} { return (*Clash)(nil) },
+		vals: []func() interface{}{func() interface{} { return &Clash{A: pk1.Item{N: 1}, B: pk2.Item{N: 2, M: "m"}} }}},
+	{name: "BigU", schema: "BigU", cborOnly: true, ptr: func() interface{} { return (*BigU)(nil) },
+		vals: []func() interface{}{
+			func() interface{} {
+				return &BigU{U: math.MaxUint64, L: []uint64{1 << 63, 7, math.MaxUint64}, N: [][]uint64{{math.MaxUint64 - 1}, {}, {3, 1<<63 + 5}}}
+			},
+			func() interface{} { return &BigU{U: 1 << 63, L: []uint64{}, N: [][]uint64{}} },
+		}},
 	{name: "pk1.Foo", schema: "Foo1", inferable: true, ptr: func() interface{} { return (*pk1.Foo)(nil) },
 		vals: []func() interface{}{func() interface{} { return &pk1.Foo{A: "a", N: 1} }}},
 	{name: "pk2.Foo", schema: "Foo2", inferable: true, ptr: func() interface{} { return (*pk2.Foo)(nil) },
@@ -523,6 +560,34 @@ var retained []struct {
 	h uint64
 }
 
+// retainedNodes holds nodes earlier Wrap calls of this process returned, with their content hash
+// at the time: nothing a later binding operation does may change what they read as.
+var retainedNodes []struct {
+	n datamodel.Node
+	h string
+}
+
+func retainedNodesIntact() bool {
+	for _, r := range retainedNodes {
+		ok := false
+		func() {
+			defer func() { recover() }()
+			ok = avh(r.n)+avhRepr(r.n) == r.h
+		}()
+		if !ok {
+			return false
+		}
+	}
+	return true
+}
+
+func avhRepr(n datamodel.Node) string {
+	if tn, ok := n.(schema.TypedNode); ok {
+		return avh(tn.Representation())
+	}
+	return ""
+}
+
 func retainedIntact() bool {
 	for _, r := range retained {
 		if sim.HashString(string(r.b)) != r.h {
@@ -558,6 +623,10 @@ func Exec(o Op) (out string) {
 		if !retainedIntact() {
 			out += " HIST:bytes-returned-by-an-earlier-Marshal-changed"
 			retained = nil
+		}
+		if !retainedNodesIntact() {
+			out += " HIST:node-returned-by-an-earlier-Wrap-reads-differently"
+			retainedNodes = nil
 		}
 	}()
 	switch o.Kind {
@@ -613,6 +682,12 @@ func Exec(o Op) (out string) {
 			if !strings.Contains(out, "unreadable:") && !viewMatches(n.Representation(), val, sh, true) {
 				out += " FID:wrap-exposes-representation=false"
 			}
+		}
+		if len(retainedNodes) < 64 {
+			retainedNodes = append(retainedNodes, struct {
+				n datamodel.Node
+				h string
+			}{n, avh(n) + avhRepr(n)})
 		}
 		if bindnode.Unwrap(n) != val {
 			out += " FID:unwrap-returns-pointer=false"
